@@ -1,0 +1,48 @@
+//go:build verif
+
+// Contracts for package protocol, checked by /verif/govc (see /verif/DESIGN.md).
+// Comment-only file: it adds nothing to any build.
+package protocol
+
+// ---- rendezvous instruction interpretation (C20) ------------------------------
+
+// otherrole(v, device): instruction v is marked for the role we are not
+//@ spec macro otherrole(v, device) = (v == RVDevOnly && !device) || (v == RVOwnerOnly && device)
+
+//@ func protocol.parseDirective
+//@   props C20 C10(sweep)
+//@   sweep bounds,panic,make,nilmem
+//@   invariant loop#1: forall k in 0..rangeindex+1: !otherrole(vars[k].Variable, device)
+//@   invariant loop#1: dir.EthIface != nil ==> (*dir.EthIface < 10 || *dir.EthIface == 20)
+//@   invariant loop#1: dir.WlanIface != nil ==> (*dir.WlanIface < 10 || *dir.WlanIface == 21)
+//@   invariant loop#1: dir.ServerCert != nil && dir.ServerCA != nil ==> dir.ServerCert != dir.ServerCA
+//@   ensures @certhashes result != nil && result.ServerCert != nil && result.ServerCA != nil ==> result.ServerCert != result.ServerCA
+//@   ensures @rolefilter result != nil ==> forall k in 0..len(vars): !otherrole(vars[k].Variable, device)
+//@   ensures @medium result != nil && result.EthIface != nil ==> (*result.EthIface < 10 || *result.EthIface == 20)
+//@   ensures @mediumw result != nil && result.WlanIface != nil ==> (*result.WlanIface < 10 || *result.WlanIface == 21)
+
+//@ func protocol.parseURLs
+//@   props C20 C10(sweep)
+//@   sweep bounds,panic,make,nilmem
+//@   callassert Itoa#1: @roleport (device && v.Variable == RVDevPort) || (!device && v.Variable == RVOwnerPort)
+
+//@ func protocol.ParseDeviceRvInfo
+//@   props C20 C10(sweep)
+//@   sweep bounds,panic,make,nilmem
+
+//@ func protocol.ParseOwnerRvInfo
+//@   props C20 C10(sweep)
+//@   sweep bounds,panic,make,nilmem
+
+// ---- keys -----------------------------------------------------------------------------------------
+
+// PubOf(k) is DEFINED as the crypto.PublicKey that PublicKey.Public parses out of k.
+//@ func protocol.PublicKey.Public
+//@   nopaths
+//@   pure
+//@   ensures! err == nil ==> u(result0) == PubOf(u(*pub))
+
+// HashFunc: registry lookup; panics on an unknown id (callers must establish it)
+//@ func protocol.HashAlg.HashFunc
+//@   inline
+//@   sweep panic
